@@ -2,6 +2,7 @@ package main
 
 import (
 	"go/token"
+	"go/types"
 	"fmt"
 	"sort"
 	"strings"
@@ -271,6 +272,7 @@ func runC05(c *Ctx) {
 	}
 	c.Check(okPtr, "address-payload-writer", ssaFuncKey(by)+":pointer", by.Pos(), "pointer payload written through encode()", "pointer staking payload is not written through AddressPayloadPointer.encode")
 	c.checkPointerVarint()
+	c.checkPointerRoom()
 }
 
 // hrpValues evaluates a string value built from constants and phis/concats restricted to reachable predecessor blocks.
@@ -424,6 +426,128 @@ func (c *Ctx) checkPointerVarint() {
 		}
 	}
 	c.Undecided("%s: the varint encoder is not in a form this checker can prove minimal or refute", key)
+}
+
+// checkPointerRoom: the three variable-length numbers of a pointer are written into a buffer that can hold the
+// longest encoding of each field (ceil(bits/7) bytes per field); a fixed buffer that is smaller silently truncates
+// (copy stops at the destination's length). Writers built on append grow as needed.
+func (c *Ctx) checkPointerRoom() {
+	enc := c.SSAFunc("ledger/common", "AddressPayloadPointer.encode")
+	if enc == nil {
+		return // reported by checkPointerVarint
+	}
+	key := ssaFuncKey(enc) + ":room"
+	// the room needed, from the field types
+	need := int64(0)
+	if recv := enc.Signature.Recv(); recv != nil {
+		t := recv.Type()
+		if pt, ok := t.(*types.Pointer); ok {
+			t = pt.Elem()
+		}
+		if st, ok := t.Underlying().(*types.Struct); ok {
+			for i := 0; i < st.NumFields(); i++ {
+				if b, ok := st.Field(i).Type().Underlying().(*types.Basic); ok && b.Info()&types.IsUnsigned != 0 {
+					bits := int64(types.SizesFor("gc", "amd64").Sizeof(b)) * 8
+					need += (bits + 6) / 7
+				}
+			}
+		}
+	}
+	if need == 0 {
+		c.Undecided("%s: cannot derive the longest pointer encoding from the field types", key)
+		return
+	}
+	fns := withAnon(enc)
+	var bufs []ssa.Value
+	var resolve func(v ssa.Value, d int)
+	resolve = func(v ssa.Value, d int) {
+		r := rootValue(v, 0)
+		if al, ok := r.(*ssa.Alloc); ok {
+			if s := singleStore(al); s != nil && d < 6 {
+				resolve(s, d+1)
+				return
+			}
+		}
+		if ph, ok := r.(*ssa.Phi); ok && d < 6 {
+			for _, e := range ph.Edges {
+				resolve(e, d+1)
+			}
+			return
+		}
+		if p, ok := r.(*ssa.Parameter); ok && p.Parent() != enc && d < 6 {
+			// a parameter of the writer closure/helper: the buffers passed at its call sites
+			idx := -1
+			for i, q := range p.Parent().Params {
+				if q == p {
+					idx = i
+				}
+			}
+			n := 0
+			for _, f := range fns {
+				for _, ci := range allCalls(f) {
+					if resolveCallee(ci.Common()) == p.Parent() && idx >= 0 && idx < len(ci.Common().Args) {
+						resolve(ci.Common().Args[idx], d+1)
+						n++
+					}
+				}
+			}
+			if n > 0 {
+				return
+			}
+		}
+		bufs = append(bufs, r)
+	}
+	nCopy, nAppend := 0, 0
+	for _, f := range fns {
+		for _, ci := range allCalls(f) {
+			b, isB := ci.Common().Value.(*ssa.Builtin)
+			if !isB {
+				continue
+			}
+			switch b.Name() {
+			case "copy":
+				nCopy++
+				resolve(ci.Common().Args[0], 0)
+			case "append":
+				nAppend++
+			}
+		}
+	}
+	if nCopy == 0 {
+		if nAppend > 0 {
+			c.Ok("pointer-encode-room", key, enc.Pos(), "the encoding is built with append and grows as needed")
+		} else {
+			c.Undecided("%s: neither copy nor append writes the pointer fields", key)
+		}
+		return
+	}
+	seen := map[ssa.Value]bool{}
+	for _, r := range bufs {
+		if seen[r] {
+			continue
+		}
+		seen[r] = true
+		size := int64(-1)
+		switch x := r.(type) {
+		case *ssa.MakeSlice:
+			if k, ok := x.Cap.(*ssa.Const); ok && k.Value != nil {
+				size = k.Int64()
+			} else if k, ok := x.Len.(*ssa.Const); ok && k.Value != nil {
+				size = k.Int64()
+			}
+		case *ssa.Alloc:
+			if arr, ok := x.Type().(*types.Pointer).Elem().Underlying().(*types.Array); ok {
+				size = arr.Len()
+			}
+		}
+		if size < 0 {
+			c.Undecided("%s: destination buffer %s of the pointer fields has no constant size", key, shortArg(trace(r)))
+			continue
+		}
+		c.Check(size >= need, "pointer-encode-room", fmt.Sprintf("%s:buffer%d", key, len(seen)), r.Pos(),
+			fmt.Sprintf("the buffer holds %d bytes, the longest pointer encoding is %d", size, need),
+			fmt.Sprintf("the buffer the pointer fields are copied into holds %d bytes but the three fields can need %d (ceil(bits/7) each): copy stops at the end of the buffer, so a pointer with wide fields is re-encoded truncated and no longer equals the bytes it was decoded from", size, need))
+	}
 }
 
 // isLenZeroFact: len(x) <= 0, len(x) == 0 or len(x) < 1.
